@@ -3,6 +3,7 @@ package rules
 import (
 	"fmt"
 	"go/ast"
+	"go/token"
 	"go/types"
 
 	"asverif/internal/gf"
@@ -66,6 +67,202 @@ func runC07(c *Ctx) {
 	c.updateWalkContinue(r, an, "C07.2-walk-continue")
 	c.storeClassesAs(r, "C07.1-ordinal-is-index")
 	c.versionedConstructor(r)
+	c.restoredSetsEveryDefinition(r)
+}
+
+// restoredSetsEveryDefinition: "pods it (re)creates below the partition are built from the current revision while
+// those at or above it are built from the update revision": at every call of the versioned constructor, each
+// StatefulSet it is handed (directly or as a field of a literal) is a variable all of whose definitions are
+// ApplyRevision(<the reconciled set>, R) for one of the two revision parameters R -- the same R in the same slot at
+// every call -- or a copy of the other restored set at a place where the facts show both revisions to be the same.
+func (c *Ctx) restoredSetsEveryDefinition(r *Reconcile) {
+	const rule = "C07.4-restored-from-its-own-revision"
+	apply := c.Func(load.CtrlPkg, "ApplyRevision")
+	if apply == nil {
+		return
+	}
+	host, fn, an := r.FI, r.Fn, r.An
+	info := host.Pkg.TypesInfo
+	type leaf struct {
+		slot string
+		val  ast.Expr
+	}
+	slotRev := map[string]string{}
+	nLeaf := 0
+	anyBad := false
+	curK, updK := fn.Term(r.CurRev).Key(), fn.Term(r.UpdRev).Key()
+	for _, call := range callsIn(host.Decl.Body, true) {
+		if f := gf.StaticCallee(info, call); f == nil || f.Origin() != r.Ctor {
+			continue
+		}
+		var leaves []leaf
+		for k, a := range call.Args {
+			a = ast.Unparen(a)
+			if isNamed(info.TypeOf(a), load.APIPkg, "StatefulSet") {
+				leaves = append(leaves, leaf{fmt.Sprintf("#%d", k), a})
+				continue
+			}
+			lit := a
+			if id, ok := lit.(*ast.Ident); ok {
+				if d := defRHS(host, info, id); d != nil {
+					lit = ast.Unparen(d)
+				}
+			}
+			if u, ok := lit.(*ast.UnaryExpr); ok && u.Op == token.AND {
+				lit = ast.Unparen(u.X)
+			}
+			if cl, ok := lit.(*ast.CompositeLit); ok {
+				for i, el := range cl.Elts {
+					v, key := el, fmt.Sprintf("#%d.%d", k, i)
+					if kv, ok := el.(*ast.KeyValueExpr); ok {
+						v, key = kv.Value, fmt.Sprintf("#%d.%s", k, types.ExprString(kv.Key))
+					}
+					if isNamed(info.TypeOf(v), load.APIPkg, "StatefulSet") {
+						leaves = append(leaves, leaf{key, ast.Unparen(v)})
+					}
+				}
+			}
+		}
+		for _, lf := range leaves {
+			nLeaf++
+			name := fmt.Sprintf("%s: %s(… %s …) slot %s", host.Obj.Name(), r.Ctor.Name(), types.ExprString(lf.val), lf.slot)
+			id, ok := lf.val.(*ast.Ident)
+			if !ok {
+				// the restoring call in place
+				id = nil
+			}
+			var defs []struct {
+				rhs ast.Expr
+				at  ast.Node
+			}
+			if id == nil {
+				defs = append(defs, struct {
+					rhs ast.Expr
+					at  ast.Node
+				}{lf.val, stmtOf(host.Decl.Body, call)})
+			} else {
+				if info.ObjectOf(id) == info.ObjectOf(r.Set) {
+					c.Bad(rule, name, call.Pos(), "the constructor is handed the reconciled set itself, not a set restored from a revision")
+					continue
+				}
+				ast.Inspect(host.Decl.Body, func(n ast.Node) bool {
+					switch x := n.(type) {
+					case *ast.AssignStmt:
+						for li, l := range x.Lhs {
+							if lid, ok := l.(*ast.Ident); ok && info.ObjectOf(lid) == info.ObjectOf(id) {
+								rhs := x.Rhs[0]
+								if len(x.Rhs) == len(x.Lhs) {
+									rhs = x.Rhs[li]
+								}
+								defs = append(defs, struct {
+									rhs ast.Expr
+									at  ast.Node
+								}{rhs, x})
+							}
+						}
+					case *ast.ValueSpec:
+						for li, l := range x.Names {
+							if info.ObjectOf(l) == info.ObjectOf(id) && len(x.Values) > 0 {
+								rhs := x.Values[0]
+								if len(x.Values) == len(x.Names) {
+									rhs = x.Values[li]
+								}
+								defs = append(defs, struct {
+									rhs ast.Expr
+									at  ast.Node
+								}{rhs, x})
+							}
+						}
+					}
+					return true
+				})
+			}
+			if len(defs) == 0 {
+				c.Bad(rule, name, call.Pos(), "no definition of this value found in the reconcile function")
+				continue
+			}
+			good, rev, why := true, "", ""
+			for _, d := range defs {
+				src, isCall := ast.Unparen(d.rhs).(*ast.CallExpr)
+				if isCall && len(src.Args) == 2 {
+					if f := gf.StaticCallee(info, src); f != nil && f.Origin() == apply.Obj && fn.Term(src.Args[0]).Key() == fn.Term(r.Set).Key() {
+						k := fn.Term(src.Args[1]).Key()
+						this := map[string]string{curK: "current", updK: "update"}[k]
+						if this != "" && (rev == "" || rev == this) {
+							rev = this
+							continue
+						}
+						good, why = false, fmt.Sprintf("definition at line %d restores it from %s", c.P.Fset.Position(d.at.Pos()).Line, types.ExprString(src.Args[1]))
+						break
+					}
+				}
+				// a copy of another restored set: it may reach a call of the constructor only where the facts show both
+				// revisions to be the same one (the copy may be unconditional and replaced under the opposite test)
+				if isNamed(info.TypeOf(d.rhs), load.APIPkg, "StatefulSet") {
+					if _, isCopy := ast.Unparen(d.rhs).(*ast.Ident); isCopy {
+						var stops []ast.Node
+						for _, o := range defs {
+							if o.at != d.at {
+								stops = append(stops, o.at)
+							}
+						}
+						aU := fn.FromAfterUntil(d.at, an.StateAfter(d.at), stops...)
+						// judged at the first top-level statement after the last definition (the revisions are parameters that
+						// are never reassigned, and revision objects are never written: what holds there holds at the call)
+						var lastEnd token.Pos
+						for _, o := range defs {
+							if top := host.Decl.Body.List[max(topIndex(host.Decl.Body, o.at), 0)]; top.End() > lastEnd {
+								lastEnd = top.End()
+							}
+						}
+						var at ast.Node = call
+						for _, ts := range host.Decl.Body.List {
+							if ts.Pos() >= lastEnd {
+								at = ts
+								break
+							}
+						}
+						st := aU.StateBefore(at)
+						if at == ast.Node(call) {
+							st = aU.StateAtExpr(call)
+						}
+						same := gf.FEq(fn.Term(r.CurRev), fn.Term(r.UpdRev))
+						sameName := gf.FEq(c.WantTerm(fn, at.Pos(), "$1.Name", r.CurRev), c.WantTerm(fn, at.Pos(), "$1.Name", r.UpdRev))
+						g1, _ := st.Implies(same)
+						g2, _ := st.Implies(sameName)
+						if assignedIn(info, host.Decl.Body, info.ObjectOf(r.CurRev)) || assignedIn(info, host.Decl.Body, info.ObjectOf(r.UpdRev)) {
+							g1, g2 = false, false
+						}
+						if !st.Reachable() || g1 || g2 {
+							continue
+						}
+					}
+				}
+				good, why = false, fmt.Sprintf("definition at line %d (%s) is not ApplyRevision(%s, <revision parameter>), and where it reaches this call the facts do not show the current and the update revision to be the same", c.P.Fset.Position(d.at.Pos()).Line, clip(types.ExprString(d.rhs), 80), r.Set.Name)
+				break
+			}
+			if good && rev != "" {
+				if prev, ok := slotRev[lf.slot]; ok && prev != rev {
+					good, why = false, "this slot is handed the set restored from the "+prev+" revision at another call and from the "+rev+" revision here"
+				}
+				slotRev[lf.slot] = rev
+			}
+			if good && rev == "" {
+				good, why = false, "no definition restores it from a revision"
+			}
+			if !good {
+				anyBad = true
+			}
+			c.Check(good, rule, name, call.Pos(), fmt.Sprintf("every one of its %d definition(s) restores it from the %s revision parameter", len(defs), rev),
+				"a pod can be built from a set that was not restored from the revision its slot stands for: "+why)
+		}
+	}
+	seen := map[string]bool{}
+	for _, v := range slotRev {
+		seen[v] = true
+	}
+	c.Check(anyBad || (seen["current"] && seen["update"]), rule, host.Obj.Name()+": both restored sets reach the constructor", host.Decl.Pos(), "one slot carries the current, another the update revision's set", "the constructor is not handed both a set restored from the current and one from the update revision")
+	c.Floor("C07.4-restored-set-arguments", nLeaf, 2)
 }
 
 // versionedConstructor checks C07.4 / C06.1a on newVersionedStatefulSetPod.
